@@ -18,6 +18,8 @@ mod diagrams;
 mod diag;
 mod khcommon;
 mod c01;
+mod c05;
+mod c03;
 
 use framework::*;
 
@@ -27,6 +29,8 @@ fn check_by_id(id: &str) -> Option<Box<dyn Check>> {
         "C12" => Some(Box::new(c12::C12)),
         "C08" => Some(Box::new(c08::C08)),
         "C01" => Some(Box::new(c01::C01)),
+        "C05" => Some(Box::new(c05::C05)),
+        "C03" => Some(Box::new(c03::C03)),
         _ => None,
     }
 }
